@@ -6,5 +6,5 @@ export GOFLAGS=-mod=mod GOPROXY=off GOSUMDB=off GOTOOLCHAIN=local
 SCR="$1"
 cd "$(dirname "$0")"
 go build -o "$SCR/instr" ./instr
-"$SCR/instr" -repo /repo -out "$SCR/ovl" >"$SCR/instr.out"
-go build -tags verif -overlay "$SCR/ovl/overlay.json" -o "$SCR/vdriver-instr" ./cmd/vdriver
+"$SCR/instr" -repo "${VERIF_REPO:-/repo}" -out "$SCR/ovl" >"$SCR/instr.out"
+go build $VERIF_MODFLAG -tags verif -overlay "$SCR/ovl/overlay.json" -o "$SCR/vdriver-instr" ./cmd/vdriver
